@@ -1652,10 +1652,12 @@ Definition row_name (r : string * N * option bytes * option bytes * option bytes
   let '(s, kt, _, _, _, _, _, _) := r in (s, kt).
 Definition mismatch_rows := filter (fun r => codec_mismatch (row_net r)) bip_prefix_table.
 
-(* the rows whose printer and parser use different checksum functions (known finding grs-bip49-bip84-checksum) *)
-Lemma mismatch_rows_are :
-  map row_name mismatch_rows =
-  [("GRS", 49%N); ("GRS", 84%N); ("GRSRT", 49%N); ("GRSRT", 84%N); ("TGRS", 49%N); ("TGRS", 84%N)]%string.
+(* every row's printer and parser use the same checksum function (after the fix of the Groestlcoin bip49/bip84 printers) *)
+Lemma table_codecs_match : forall r, In r bip_prefix_table -> codec_mismatch (row_net r) = false.
+Proof.
+  intros r H. apply negb_true_iff. revert r H. apply forallb_forall. vm_compute. reflexivity.
+Qed.
+Lemma mismatch_rows_none : mismatch_rows = [].
 Proof. vm_compute. reflexivity. Qed.
 
 (* concrete witnesses in the toy instance *)
@@ -1676,18 +1678,4 @@ Proof. cbn zeta. eexists. split; [vm_compute; reflexivity|vm_compute; reflexivit
 Lemma toy_root_ser_ok : ser_ok bool Toy.root.
 Proof. unfold ser_ok, Toy.root. cbn [nd_depth nd_index]. lia. Qed.
 
-Definition dummy_row : string * N * option bytes * option bytes * option bytes * option bytes * N * N :=
-  (""%string, 0%N, None, None, None, None, 0%N, 0%N).
-Definition bad_row :=
-  match find (fun r => codec_mismatch (row_net r)) bip_prefix_table with Some r => r | None => dummy_row end.
-Lemma bad_row_found : find (fun r => codec_mismatch (row_net r)) bip_prefix_table = Some bad_row.
-Proof. vm_compute. reflexivity. Qed.
-Lemma bad_row_in : In bad_row bip_prefix_table /\ codec_mismatch (row_net bad_row) = true.
-Proof. exact (find_some _ _ bad_row_found). Qed.
-
-Lemma toy_text_fails :
-  exists text,
-    hwif bool Toy.sec Toy.b58enc (row_net bad_row) Toy.root true = Ret text /\
-    parse_hd bool false Toy.smul true 2 Bool.eqb Toy.unsec Toy.b58dec (row_net bad_row) text = Ret None.
-Proof. eexists. split; [vm_compute; reflexivity|vm_compute; reflexivity]. Qed.
 
